@@ -9,6 +9,8 @@
      nameenc weid MAC WIN     -> xBYTES       (language tables visited in ascending id order)
      nameview weid MAC WIN    -> (version numRec storageOffset len ((plat enc lang id xBYTES) ...))
      namedec xBYTES           -> (ok MAC WIN) | err | panic
+     otfpair xSCRIPT xLANG    -> (ok xEXT xSCRIPT xLANG) | err   (x extension string predicted under
+                                 the x/text assumption, and the pair bcp47ToOtf recovers from it)
    MAC, WIN = ((xTAG ((id (r ...)) ...)) ...) *)
 
 let runes x = List.map sx_n (lst x)
@@ -69,4 +71,8 @@ let () = main_loop (fun c ->
   | [A "namedec"; b] ->
       out_of (fun inf -> let ci = canon_info inf in
                L [A "ok"; sx_of_tables ci.i_mac; sx_of_tables ci.i_win]) (m_name_decode (sx_bytes b))
+  | [A "otfpair"; sc; la] ->
+      (match m_otf_pair (sx_bytes sc) (sx_bytes la) with
+       | Some (ext, (s2, l2)) -> L [A "ok"; A (hex_of_bytes ext); A (hex_of_bytes s2); A (hex_of_bytes l2)]
+       | None -> A "err")
   | _ -> failwith "bad case")
